@@ -128,7 +128,7 @@ KeepAux == UNCHANGED <<pend, rot, atag>>
 (* one slot per kind of operation in flight, so that operations of different kinds may overlap *)
 NoneP == [kind |-> "none"]
 NoPend == [reg |-> NoneP, auth |-> <<>>, stats |-> NoneP, batch |-> NoneP, authsrv |-> NoneP,
-           migrate |-> NoneP, crashed |-> NoneP, sync |-> NoneP, recent |-> NoneP, credit |-> 0]
+           migrate |-> NoneP, crashed |-> NoneP, sync |-> NoneP, recent |-> NoneP, credit |-> 0, fault |-> FALSE]
 
 -----------------------------------------------------------------------------
 TReset ==
@@ -249,10 +249,18 @@ TUDPRead ==
   /\ pend' = [pend EXCEPT !.credit = IF Ev.a = "Direct" \/ (Ev.a = "UDPRead" /\ Ev.n = 80) THEN @ + 1 ELSE @]
   /\ UNCHANGED <<rot, atag>>
 
+(* pend.fault: the driver made the GCA key file unwritable (DiskFault event).  A registration that would *)
+(* succeed is then refused and leaves nothing behind, neither on disk nor in memory.                      *)
+TDiskFault ==
+  /\ Ev.a = "DiskFault" /\ UNCHANGED vars
+  /\ pend' = [pend EXCEPT !.fault = Ev.on] /\ UNCHANGED <<rot, atag>>
 TRegister ==
   /\ Ev.a = "Register" /\ pend.batch.kind # "batch"
-  /\ Apply(Register(Ev.k, UnSig(Ev.sig)))
-  /\ pend' = [pend EXCEPT !.reg = [kind |-> "reg", ok |-> RegisterOK(Ev.k, UnSig(Ev.sig))]]
+  /\ IF pend.fault /\ RegisterOK(Ev.k, UnSig(Ev.sig))
+     THEN /\ Apply(UNCHANGED vars)
+          /\ pend' = [pend EXCEPT !.reg = [kind |-> "reg", ok |-> FALSE]]
+     ELSE /\ Apply(Register(Ev.k, UnSig(Ev.sig)))
+          /\ pend' = [pend EXCEPT !.reg = [kind |-> "reg", ok |-> RegisterOK(Ev.k, UnSig(Ev.sig))]]
   /\ UNCHANGED <<rot, atag>>
 
 TRegisterResp ==
@@ -564,7 +572,7 @@ TNext ==
   /\ \/ TReset \/ TTick \/ TStartBegin \/ TStart \/ TClose
      \/ TCatchUpPoll \/ TRotPoll \/ TRotGo \/ TRotForce \/ TRotate \/ TRotationOverdue
      \/ TRecvReport \/ TUDPRead
-     \/ TRegister \/ TRegisterResp \/ TAuthorize \/ TAuthorizeResp
+     \/ TDiskFault \/ TRegister \/ TRegisterResp \/ TAuthorize \/ TAuthorizeResp
      \/ TImpactList \/ TImpactSet
      \/ TQueryStats \/ TStatsResp \/ TQueryRecent \/ TRecentResp
      \/ TEquipmentResp \/ TCheckInv \/ TBatchBegin \/ TRegisterInBatch \/ TBatchEnd
